@@ -97,6 +97,9 @@ func genFile(r *rng.R, maxB, maxE int, onlyReversible bool) g.FileSpec {
 	for b := 0; b < nb; b++ {
 		scc := rng.Pick(r, []int{200, 220, 225})
 		bs := g.BatchSpec{Kind: "std", SEC: rng.Pick(r, bothSEC), SCC: scc, Number: b + 1, Company: "121042882", Trace0: 1 + r.Intn(50)}
+		if r.Chance(1, 60) {
+			bs.Desc = rng.Pick(r, []string{"PRENOTE", "Prenote"}) // every amount must then be zero
+		}
 		ne := r.Range(1, maxE)
 		// a batch is often drawn from one or two codes only, so single-direction outcomes of mixed batches occur
 		pool := entryCodes
@@ -115,6 +118,9 @@ func genFile(r *rng.R, maxB, maxE int, onlyReversible bool) g.FileSpec {
 				}
 			}
 			es := g.EntrySpec{Code: code, Amount: amountFor(r, code), Tag: tag}
+			if bs.Desc != "" {
+				es.Amount = 0
+			}
 			if bs.SEC == ach.CTX {
 				es.Addenda = r.Intn(3)
 			} else if r.Chance(1, 4) {
@@ -361,7 +367,11 @@ func checkCase(c Case) (fails []failure, trivial bool) {
 		add("reversal:file-totals", "file control totals not swapped")
 	}
 	if err := f.Validate(); err != nil {
-		add("reversal:invalid-result:"+errClass(err), "the reversed file fails Validate: "+errClass(err))
+		if errClass(err) == "amount" && hasPrenoteDesc(c) {
+			add("reversal:prenote-description-zero-amount", "the reversed file fails Validate: a batch described PRENOTE carried zero amounts on ordinary codes; with the description REVERSAL they are rejected")
+		} else {
+			add("reversal:invalid-result:"+errClass(err), "the reversed file fails Validate: "+errClass(err))
+		}
 	}
 	// reversing twice restores the transaction codes
 	err, panicked = g.Protect(func() error { return f.Reversal(when) })
@@ -378,6 +388,15 @@ func checkCase(c Case) (fails []failure, trivial bool) {
 		}
 	}
 	return dedup(fails), false
+}
+
+func hasPrenoteDesc(c Case) bool {
+	for _, b := range c.File.Batches {
+		if strings.EqualFold(b.Desc, "PRENOTE") {
+			return true
+		}
+	}
+	return false
 }
 
 func dedup(fs []failure) []failure {
